@@ -201,6 +201,38 @@ pub fn run_policy(ctx: &mut Ctx, scn: &StoreScn) {
             ctx.viol("sync-gap", format!("with interval sync every {}ms there was a span of {}us without an fsync while the store was open", dms, worst / 1000), "");
         }
     }
+    // second round: the policy keeps being followed on later ticks. A second burst of writes
+    // (no simulated time passes while it runs), the predicate recomputed from the store's own
+    // statistics, and again only time passes.
+    if ctx.out.violations.is_empty() && !never {
+        for (j, key) in keys.iter().enumerate() {
+            let _ = store::set(&s.h, key, Val { tag: 600_000 + j as u32, len: 20 + (j as u32 % 3) * 40 }.bytes());
+            if j % 2 == 0 {
+                let _ = store::set(&s.h, key, Val { tag: 601_000 + j as u32, len: 9 }.bytes());
+            } else {
+                let _ = store::del(&s.h, key);
+            }
+        }
+        let t2 = ctx.sim.now_ns();
+        let seq2 = store::io_seq(ctx.sim);
+        let d4 = s.h.verif_dump();
+        let predicate2 = d4.stats.iter().any(|st| st.dead_bytes > cfg.trig_dead || frag(st.dead_keys, st.live_keys) > cfg.trig_frag);
+        ctx.sim.sleep_thread(ctx.me, span);
+        let later: Vec<u64> = fsim::with_fs(ctx.sim, |fs| fs.log.iter().filter(|r| r.seq > seq2 && r.res >= 0 && r.op == IoOp::Create && fs.path_name(r.path).ends_with(".hint")).map(|r| r.now).collect());
+        if predicate2 {
+            ctx.sim.probe("second_round_trigger_exceeded");
+            match later.first() {
+                None => ctx.viol("merge-not-run", format!("second round: after more writes a file exceeds a merge trigger again (dead_bytes trigger {}, fragmentation trigger {}), yet no merge ran within {}ms on the later ticks", cfg.trig_dead, cfg.trig_frag, span / 1_000_000), ""),
+                Some(t) if *t - t2 > bound_ns => ctx.viol("merge-late", format!("second round: a trigger was exceeded at t={}us but the next merge started only {}us later; one check interval plus jitter is {}us", (t2 - t_open) / 1000, (t - t2) / 1000, bound_ns / 1000), ""),
+                _ => {}
+            }
+        } else {
+            ctx.sim.probe("second_round_trigger_not_exceeded");
+            if let Some(t) = later.first() {
+                ctx.viol("merge-without-trigger", format!("second round: a merge started {}ms after the second burst although no file exceeds a trigger", (t - t2) / 1_000_000), "");
+            }
+        }
+    }
     ctx.sig(mix(mode, mix(never as u64, mix(predicate as u64, mix(matches!(cfg.sync, SyncCfg::IntervalMs(_)) as u64, (hint_creates.len() as u64).min(3))))));
     ctx.out.nontrivial = true;
     drop(s);
